@@ -196,6 +196,35 @@ theorem exec_rmR64_regs (hh : HasHooks) (i : Instr) (s : Machine) (d sr : Fin 16
     · simp [ExecRes.ofOut, writeRM, writeReg, regWriteW, regWrite64]
     · simp [ExecRes.ofOut]
 
+/-- … and the mirror family `op r64, r/m64` (ADD, ADC, SUB, CMP, AND, XOR, MOV, CMOVcc with a register source): the same
+    statement, whichever of the two operands the row reads first. -/
+theorem exec_rRm64_regs (hh : HasHooks) (i : Instr) (s : Machine) (d sr : Fin 16) (df : Bool) (op : Op2) (set clear : BitVec 64)
+    (hrow : lookup i.code = some (.rRm 64 64 df op set clear))
+    (hops : instructionOperands2 i = .ok (.register (.g64 d), .register (.g64 sr))) :
+    exec hh i s =
+      match setFlags (set ||| (applyOp2 op (s.rflags &&& FLAG_CF != 0) 64 64 (s.regs.get d) (s.regs.get sr)).2) clear
+          ((applyOp2 op (s.rflags &&& FLAG_CF != 0) 64 64 (s.regs.get d) (s.regs.get sr)).1.setWidth 64) s.rflags with
+      | .ok f =>
+        if set &&& NO_WRITEBACK == 0 then
+          .ok { s with rflags := f,
+                       regs := s.regs.set d (applyOp2 op (s.rflags &&& FLAG_CF != 0) 64 64 (s.regs.get d) (s.regs.get sr)).1 }
+        else .ok { s with rflags := f }
+      | .err => .err
+      | .panic => .panic := by
+  unfold exec
+  cases df <;>
+  · simp only [hrow, calcRRm, hops, AxOperand.toReg, readReg, regReadW, regRead64, readRM, finish, setFlagsW,
+      Bool.false_eq_true, if_false, if_true]
+    cases hf : setFlags (set ||| (applyOp2 op (s.rflags &&& FLAG_CF != 0) 64 64 (s.regs.get d) (s.regs.get sr)).2) clear
+        ((applyOp2 op (s.rflags &&& FLAG_CF != 0) 64 64 (s.regs.get d) (s.regs.get sr)).1.setWidth 64) s.rflags with
+    | err => simp [ExecRes.ofOut]
+    | panic => simp [ExecRes.ofOut]
+    | ok f =>
+      simp only
+      split
+      · simp [ExecRes.ofOut, writeRM, writeReg, regWriteW, regWrite64]
+      · simp [ExecRes.ofOut]
+
 theorem lookup_add64 : lookup "Add_rm64_r64" = some (.rmR 64 64 .add SZP CO) := by decide +kernel
 theorem lookup_sub64 : lookup "Sub_rm64_r64" = some (.rmR 64 64 .sub SZP CO) := by decide +kernel
 theorem lookup_cmp64 : lookup "Cmp_rm64_r64" = some (.rmR 64 64 .sub (NO_WRITEBACK ||| SZP) CO) := by decide +kernel
